@@ -210,5 +210,7 @@ TraceNext == IF Mode = "driven" THEN DrivenNext ELSE ENext
 TraceSpec == TInit /\ [][TraceNext]_<<vars, tvars>>
 
 Reached == (i = Segs[seg].last + 1) => PrintT(<<"CASE", ToJson([accept |-> seg])>>)
+\* diagnosis of a single rejected segment: how far does any behaviour get
+Progress == PrintT(<<"CASE", ToJson([at |-> i])>>)
 TView == <<View, tvars>>
 =============================================================================
